@@ -35,12 +35,12 @@ VARIABLES kind,
           ks,      \* kernel: [open, gone, fd, inq]
           ps,      \* poller: [rd, wr, tgt, kmask, kmap, emask]
           erd, ewr,\* the environment's own view of what it registered (guards only)
-          P, bad, hist, out,
+          P, bad,  \* monitor state, first failed clause
+          hist,    \* environment history: what a replay drives
+          out,     \* the lines emitted by the last step (compared with the real trace)
           lastcore, lastexp, lastexc, lastev   \* last iteration, for the direct invariants
 
 vars == <<kind, ks, ps, erd, ewr, P, bad, hist, out, lastcore, lastexp, lastexc, lastev>>
-
-Emit(lines) == LET r == Run(P, lines, bad) IN P' = r[1] /\ bad' = r[2] /\ out' = lines
 
 -----------------------------------------------------------------------------
 (* kernel *)
@@ -85,11 +85,13 @@ UpdReg(kd, k, s, o) ==
              IN IF n = 0 THEN t
                 ELSE [t EXCEPT !.kmask = [@ EXCEPT ![n] = {}], !.kmap = [@ EXCEPT ![n] = 0]]
      ELSE \* epoll: unregister fails quietly for a closed / unregistered descriptor;
-          \* _map is not cleaned when the interest becomes empty
+          \* the _map entry goes when the interest becomes empty (if it is still o's)
         IF m # {} THEN
            [s EXCEPT !.emask = [@ EXCEPT ![o] = m], !.kmap = [@ EXCEPT ![n] = o]]
         ELSE LET t == BaseDiscard(s, o)
-             IN IF n = 0 THEN t ELSE [t EXCEPT !.emask = [@ EXCEPT ![o] = {}]]
+             IN IF n = 0 THEN t
+                ELSE [t EXCEPT !.emask = [@ EXCEPT ![o] = {}],
+                               !.kmap = [@ EXCEPT ![n] = IF @ = o THEN 0 ELSE @]]
 
 AddR(kd, k, s, o) == UpdReg(kd, k, BaseAddR(s, o), o)
 AddW(kd, k, s, o) == UpdReg(kd, k, BaseAddW(s, o), o)
